@@ -230,6 +230,7 @@ def run(report, p):
                 f.rule = rr.id
             report.rules.append(rr)
 
+    include_rules(report, p, 'c08', ['R8.6'], 'exactly one new manifest and chain entry per touched history: the commit loop writes every history that received records or references, and skips only the others')
     include_rules(report, p, 'c16', ['R16.4'], 'the manifest name carries the UTC time')
     report.not_decided += ["byte-for-byte stability of earlier manifests at run time", "collision of the fresh name with a foreign file", "several runs within the same clock second (names differ by number, not by time)"]
 
